@@ -3,6 +3,9 @@ import PeliteModel.Lemmas.Version
 C13 helper lemmas, part 3: the parse tree of a block, `visit` as a structural walk over it, the
 event list as its flattening, and every visitor's result as a fold of the event list.
 -/
+set_option linter.unusedSimpArgs false
+set_option linter.unnecessarySimpa false
+
 namespace Pelite.Version
 
 /-! ### the parse tree -/
